@@ -147,6 +147,15 @@ def chkLine (st : RibSt) (ts : List Tok) : RibSt :=
             match boolOf allow, boolOf ign, stOf want, (recv.filter (· ≠ [])).mapM stOf with
             | some allow, some ign, some (some want), some recv =>
               let e : CErr := if tokStr enc = "nil" then .nil else if tokStr enc = "other" then .other else .clientErr 0 recv
+              -- C17 monitor (necessary condition, whatever the message / details options): a pass
+              -- needs a received error that carries a gRPC status with the wanted code
+              let codeSeen := match e with
+                | .clientErr _ rs => rs.any (fun r => match r with
+                    | some s => s.code == want.code || (allow && s.code == Chk.unimplemented)
+                    | none => false)
+                | _ => false
+              let st := if impl && !codeSeen
+                then st.monfail "c17" s!"HasRecvClientErrorWithStatus passed although no received error carries a gRPC status with code {want.code}" else st
               verdict st c (hasRecvStatus e want allow ign) impl pan
             | _, _, _, _ => bad st
           | _ => bad st
